@@ -7,6 +7,14 @@ ops: {'t','op':'call','id','timeout','svc'}            traffic
      {'t','op':'up','member':i}                          channel is open again
      {'t','op':'join'|'leave','member':i}                membership
      {'t','op':'steady','c':k,'dur':s,'svc':d}           hold k calls in flight (C06 liveness)
+
+Environment note: member channels never yield inside Open()/Close() here,
+because no shipped sink does (measured on the real stacks: the heap lock is
+never held across a loop step).  The stub can model a Close() that takes a
+moment (spec 'close_yield'), but with it the *unchanged* aperture already
+loses members (a hub callback cannot wait for the heap lock; an endpoint is in
+neither set while an expansion waits for the lock), so scenario generation
+keeps it off -- see DESIGN.md section 10.
 """
 import copy
 
@@ -24,7 +32,9 @@ def generate(rng, tier='quick', kind=None, mode='history', **kw):
   init = sorted(rng.sample(range(n), rng.randint(0 if rng.random() < 0.1 else 1, n)))
   cfg = {'kind': kind, 'n': n, 'initial': init,
          'get_delay': rng.choice([0, 0, 0, 0.02]), 'init_failures': rng.choice([0, 0, 0, 1]),
-         'open_delay': rng.choice([0, 0, 0.001, 0.02]), 'open_sync': rng.random() < 0.6}
+         'open_delay': rng.choice([0, 0, 0.001, 0.02]), 'open_sync': rng.random() < 0.6,
+         'close_yield': None}
+  rng.choice([None, None, None, 0, 0.02])    # (draw kept so that existing seeds generate the same scenarios)
   if kind == 'aperture':
     mn = rng.randint(1, 4)
     mx = rng.choice([mn, mn + 1, mn + 3, 8, 2 ** 31])
@@ -52,7 +62,9 @@ def generate(rng, tier='quick', kind=None, mode='history', **kw):
     mn = rng.randint(2, 3)
     n = mn + rng.randint(1, 2)
     cfg.update({'n': n, 'initial': list(range(n)), 'get_delay': 0, 'init_failures': 0,
-                'open_delay': rng.choice([0.3, 0.6, 0.9]), 'open_sync': False})
+                'open_delay': rng.choice([0.3, 0.6, 0.9]), 'open_sync': False,
+                'close_yield': None})
+    rng.choice([None, 0, 0.05, 0.2])
     cfg['aperture'] = {'min_size': mn, 'max_size': 2 ** 31, 'min_load': 0.5, 'max_load': 2.0,
                        'jitter_min_sec': 1, 'jitter_max_sec': 2}
     t = 1.0
@@ -99,7 +111,7 @@ def generate(rng, tier='quick', kind=None, mode='history', **kw):
 def simplify(scn):
   out = []
   c = copy.deepcopy(scn)
-  c['cfg'].update({'get_delay': 0, 'init_failures': 0, 'open_delay': 0, 'open_sync': True})
+  c['cfg'].update({'get_delay': 0, 'init_failures': 0, 'open_delay': 0, 'open_sync': True, 'close_yield': None})
   out.append(c)
   return out
 
